@@ -15,8 +15,9 @@ namespace detail {
 
 template<class Graph, class WeightMap, class CycleOutputIterator>
 struct mcb_sva_signed {
+    template<class OutputIterator>
     typename boost::property_traits<WeightMap>::value_type operator()(
-            const Graph &g, const WeightMap &weight, CycleOutputIterator out) {
+            const Graph &g, const WeightMap &weight, OutputIterator out) {
         return parmcb::mcb_sva_signed(g, weight, out);
     }
 };
